@@ -128,6 +128,11 @@ Ltac indexq_contra Hc :=
   destruct (comp_indexq_inv _ _ _ _ _ _ _ _ _ _ _ _ Hc) as (_ & _ & _ & ?cb & ?nb & ?s1 & ?ca & ?na & _ & _ & H & _);
   apply (f_equal (@length instr)) in H; simpl in H; rewrite !app_length in H; simpl in H;
   match type of H with context [length (arg_code ?v ?p ?s ?c ?n)] => pose proof (arg_code_len v p s c n) end; lia.
+Ltac call1_contra Hc :=
+  let H := fresh in
+  destruct (comp_call1_inv _ _ _ _ _ _ _ _ _ _ _ _ Hc) as (_ & _ & ?cb & ?nb & _ & H & _);
+  apply (f_equal (@length instr)) in H; simpl in H; rewrite !app_length in H; simpl in H;
+  match type of H with context [length (arg_code ?v ?p ?s ?c ?n)] => pose proof (arg_code_len v p s c n) end; lia.
 Ltac slice_contra Hc :=
   let H := fresh in
   destruct (comp_slice_inv _ _ _ _ _ _ _ _ _ _ _ _ _ Hc) as (_ & _ & _ & ?ca & ?na & ?s1 & ?cb & ?nb & ?s2 & ?ct & ?nt0 & _ & _ & _ & H & _);
@@ -142,7 +147,8 @@ Proof.
   - (* if *) destruct (is_const1 l0), (is_const1 l1); destruct l; len_contra' Hc.
   - (* try *) destruct h; simpl in *; dcomp; len_contra' Hc.
   - (* array *) destruct (array_fold q); len_contra' Hc.
-  - (* foreach *) destruct e; simpl in *; dcomp; len_contra' Hc.
+  - (* reduce *) dpat Hc. dcomp. len_contra' Hc.
+  - (* foreach *) dpat Hc. dcomp. destruct e; simpl in *; dcomp; len_contra' Hc.
   - (* bind *) destruct l; len_contra' Hc.
   - (* binop *) binop_contra Hc.
   - (* def *) def_contra Hc.
@@ -153,6 +159,7 @@ Proof.
     destruct (comp_bindp_inv _ _ _ _ _ _ _ _ _ _ _ _ _ Hc) as (_ & _ & cs & n1 & s1 & cp & bs & n2 & cb & _ & _ & _ & _ & H). len_contra H.
   - (* indexq *) change (compg tco (QIndexQ t q) ce tp cur pc nv sn = Some ([], nv', sn')) in Hc. indexq_contra Hc.
   - (* slice *) change (compg tco (QSlice t a b) ce tp cur pc nv sn = Some ([], nv', sn')) in Hc. slice_contra Hc.
+  - (* call1 *) change (compg tco (QCall1 f a) ce tp cur pc nv sn = Some ([], nv', sn')) in Hc. call1_contra Hc.
 Qed.
 
 Lemma app_single : forall (a b : list instr) x, a ++ b = [x] -> (a = [] /\ b = [x]) \/ (a = [x] /\ b = []).
@@ -176,7 +183,8 @@ Proof.
   - (* array *) destruct (array_fold q) as [cs|] eqn:Ef; [|len_contra' Hc].
     injection Hc as Hk Hn Hs. subst. assert (Ha : acl q = Some cs) by (destruct q; simpl in Ef; auto; discriminate).
     simpl. rewrite (acl_sound _ _ Ha). reflexivity.
-  - (* foreach *) destruct e; simpl in *; dcomp; len_contra' Hc.
+  - (* reduce *) dpat Hc. dcomp. len_contra' Hc.
+  - (* foreach *) dpat Hc. dcomp. destruct e; simpl in *; dcomp; len_contra' Hc.
   - (* bind *) destruct l; len_contra' Hc.
   - (* binop *) binop_contra Hc.
   - (* def *) def_contra Hc.
@@ -190,6 +198,7 @@ Proof.
     destruct (comp_bindp_inv _ _ _ _ _ _ _ _ _ _ _ _ _ Hc) as (_ & _ & cs & n1 & s1 & cp & bs & n2 & cb & _ & _ & _ & _ & H). len_contra H.
   - (* indexq *) change (compg tco (QIndexQ t q) ce tp cur pc nv sn = Some ([Iconst k0], nv', sn')) in Hc. indexq_contra Hc.
   - (* slice *) change (compg tco (QSlice t a b) ce tp cur pc nv sn = Some ([Iconst k0], nv', sn')) in Hc. slice_contra Hc.
+  - (* call1 *) change (compg tco (QCall1 f a) ce tp cur pc nv sn = Some ([Iconst k0], nv', sn')) in Hc. call1_contra Hc.
 Qed.
 
 Lemma bind_list_ext' : forall r (f g : jv -> result), (forall w, f w = g w) -> bind r f = bind r g.
@@ -268,7 +277,8 @@ Proof.
   - (* try *) destruct h; simpl in *; dcomp; len_contra' Hc.
   - (* array *) destruct (comp_mono _ _ _ _ _ _ _ _ _ Ec) as [M _].
     destruct (array_fold q) as [cs|]; [|len_contra' Hc]. injection Hc as H1 H2 H3. lia.
-  - (* foreach *) destruct e; simpl in *; dcomp; len_contra' Hc.
+  - (* reduce *) dpat Hc. dcomp. len_contra' Hc.
+  - (* foreach *) dpat Hc. dcomp. destruct e; simpl in *; dcomp; len_contra' Hc.
   - (* label *) injection Hc as H1 H2 H3. destruct (comp_mono _ _ _ _ _ _ _ _ _ Ec) as [M _]. lia.
   - (* bind *) destruct l; len_contra' Hc.
   - (* call0 *) inversion Hc; subst. left. split; auto.
@@ -282,6 +292,7 @@ Proof.
     destruct (comp_bindp_inv _ _ _ _ _ _ _ _ _ _ _ _ _ Hc) as (_ & _ & cs & n1 & s1 & cp & bs & n2 & cb & _ & _ & _ & _ & H). len_contra H.
   - (* indexq *) change (compg tco (QIndexQ t q) ce None cur pc nv sn = Some ([x0], nv, sn')) in Hc. indexq_contra Hc.
   - (* slice *) change (compg tco (QSlice t a b) ce None cur pc nv sn = Some ([x0], nv, sn')) in Hc. slice_contra Hc.
+  - (* call1 *) change (compg tco (QCall1 f a) ce None cur pc nv sn = Some ([x0], nv, sn')) in Hc. call1_contra Hc.
 Qed.
 
 Lemma comp_binop_inv : forall o a b ce cur pc nv sn cq nv' sn', comp (QBinop o a b) ce cur pc nv sn = Some (cq, nv', sn') ->
